@@ -38,19 +38,42 @@ impl HalfSpace {
     /// of normal), `-1.` when the `vertex` lies on the negative half space
     /// and `0.` when a more precise test is needed
     pub fn clip(&self, vertex: DVec3) -> f64 {
-        self.clip_with_error_factor(vertex, 1.)
+        self.clip_with_error_factor(vertex, 1., 0.)
     }
 
     /// Same as [`HalfSpace::clip`], for a `vertex` whose location is only known up to
     /// `error_factor` times the usual rounding error (e.g. the intersection of nearly
     /// parallel planes).
-    pub(super) fn clip_with_error_factor(&self, vertex: DVec3, error_factor: f64) -> f64 {
+    ///
+    /// `snap_error` is an additional (absolute) uncertainty on the distance between the
+    /// `vertex` and the plane: the amount by which it can change when the generators are
+    /// snapped onto the integer grid used by the exact predicate.
+    pub(super) fn clip_with_error_factor(
+        &self,
+        vertex: DVec3,
+        error_factor: f64,
+        snap_error: f64,
+    ) -> f64 {
         let clip = self.plane.n.dot(vertex) - self.d;
-        if clip.abs() < self.errb * error_factor {
+        if clip.abs() < self.errb * error_factor + snap_error {
             0.
         } else {
             clip.signum()
         }
+    }
+
+    /// Upper bound on the displacement of this plane at `loc`, when the generators that define
+    /// it (`left_loc` is the one on the inside) are snapped onto a grid with the given spacing:
+    /// the plane shifts by at most the grid spacing and the bisector between two generators
+    /// at distance `s` from each other rotates over an angle of at most `spacing / s`.
+    pub(super) fn snap_error(&self, loc: DVec3, left_loc: DVec3, grid_spacing: f64) -> f64 {
+        const SAFETY: f64 = 4.;
+        if self.right_idx.is_none() {
+            // The walls of the simulation volume do not rotate.
+            return SAFETY * grid_spacing;
+        }
+        let s = 2. * (self.plane.p - left_loc).dot(self.plane.n).abs();
+        SAFETY * grid_spacing * (1. + loc.distance(self.plane.p) / s)
     }
 
     pub fn normal(&self) -> DVec3 {
